@@ -7,6 +7,10 @@ B    ?= build
 CXX  ?= g++
 CXXFLAGS ?= -std=c++14 -O1 -g -w -DNDEBUG -DCRAB_VERIF_SIM -I$(REPO)/include -Isim/inc
 LDLIBS = -lgmpxx -lgmp
+# optional sanitizer variant (not used by the registered checks):
+#   make B=build_san SAN="-fsanitize=address,undefined -fno-sanitize=signed-integer-overflow -fno-omit-frame-pointer"
+SAN ?=
+CXXFLAGS += $(SAN)
 
 LIB_SRCS := $(wildcard $(REPO)/lib/*.cpp)
 LIB_OBJS := $(patsubst $(REPO)/lib/%.cpp,$(B)/lib/%.o,$(LIB_SRCS))
@@ -28,7 +32,7 @@ $(B)/libCrab.a: $(LIB_OBJS)
 	ar rcs $@ $(LIB_OBJS)
 
 $(B)/crabsim: $(SIM_OBJS) $(DOM_OBJS) $(B)/libCrab.a
-	$(CXX) -o $@ $(SIM_OBJS) $(DOM_OBJS) $(B)/libCrab.a $(LDLIBS)
+	$(CXX) $(SAN) -o $@ $(SIM_OBJS) $(DOM_OBJS) $(B)/libCrab.a $(LDLIBS)
 
 $(B)/lib/%.o: $(REPO)/lib/%.cpp
 	@mkdir -p $(dir $@)
